@@ -218,6 +218,18 @@ def fd_check(ctx: Ctx, designs):
 def explore(ctx: Ctx):
     n = ctx.n(40, 300)
     designs = make_designs(ctx, n)
+    # a deliberate class (own generator state): several background variants and a BED mask over one of them - the re-presentations list the
+    # records in any order, the masked one also after records that lie beyond its interval
+    r_mask = random.Random(f'C12-masked-background-{ctx.seed}')
+    extra = 0
+    for _ in range(40 * n):
+        if extra >= max(4, n // 8):
+            break
+        d = gen.gen_sge(r_mask, {'p_bg': 1.0, 'p_mask': 1.0, 'n_bg': [3, 4, 5], 'max_bg': 6, 'p_custom': 0.3, 'p_pam': 0.5, 'p_gtf': 0.8, 'p_table': 0.0,
+                                 'bg_kinds': ['snv', 'snv', 'ins', 'del'], 'n_targetons': r_mask.choice([1, 2])})
+        if len(d.get('bg') or []) >= 3 and d.get('mask'):
+            designs.append(d)
+            extra += 1
     seeds = ['0', '1', '2', str(3 + ctx.seed)]
     jobs, index = [], []
     for i, d in enumerate(designs):
